@@ -1032,6 +1032,8 @@ pub struct PairCfg {
     /// EndpointConfig::max_udp_payload_size of the server / client endpoint (advertised limit)
     pub server_max_udp: Option<u16>,
     pub client_max_udp: Option<u16>,
+    /// Lifetime of NEW_TOKEN validation tokens (None = quinn's default of two weeks)
+    pub token_lifetime: Option<Duration>,
 }
 
 impl Default for PairCfg {
@@ -1055,6 +1057,7 @@ impl Default for PairCfg {
             retry_token_lifetime: Duration::from_secs(1_000_000),
             server_max_udp: None,
             client_max_udp: None,
+            token_lifetime: None,
         }
     }
 }
@@ -1083,6 +1086,9 @@ pub fn server_config(cfg: &PairCfg, keylog: Arc<mtls::KeyLog>, time: Arc<SimTime
     sc.time_source(time);
     let mut vt = proto::ValidationTokenConfig::default();
     vt.sent(cfg.tokens_sent);
+    if let Some(l) = cfg.token_lifetime {
+        vt.lifetime(l);
+    }
     sc.validation_token_config(vt);
     sc
 }
